@@ -331,7 +331,7 @@ func macStr(m [6]byte) string {
 }
 
 // the decoded packet the abstract packet stands for; nil when the sampled header cannot be broken down (dissectable):
-// such a raw-header record contributes nothing, and everything else in the datagram is decoded as if it were not there
+// such a raw-header record is reported with its four numbers alone, and everything else in the datagram is decoded as usual
 func (p *aPkt) expected() *packet.Packet {
 	if !p.dissectable() {
 		return nil
@@ -388,6 +388,20 @@ type xFlowSample struct {
 	Records      map[string]sflow.Record
 }
 
+// the raw packet header record of the specification (sFlow v5 `sampled_header`): header_protocol, frame_length (the
+// original length of the sampled frame: what a consumer scales by the sampling rate to get octets, and for a frame
+// that is not IP the only thing that says how large it was), stripped, the number of sampled octets, and — where the
+// octets can be broken down — the abstract packet's layers next to them (embedded: L2 / L3 / L4 are members of the
+// record itself; for a header without a breakdown they are absent and the four numbers are still there: they are on
+// the wire and well-formed whatever the sampled octets are).  Declared here for the same reason as xFlowSample.
+type xRawHeader struct {
+	Protocol     uint32
+	FrameLength  uint32
+	Stripped     uint32
+	HeaderLength uint32
+	*packet.Packet
+}
+
 func setFields(ptr interface{}, fields []fieldSpec, vals []uint64) {
 	v := reflect.ValueOf(ptr).Elem()
 	for i, f := range fields {
@@ -423,10 +437,10 @@ func (d *aDatagram) expected(filter []uint32) *sflow.SFDatagram {
 				rc := &s.Recs[j]
 				switch rc.Fmt {
 				case 1:
-					// a sampled header that cannot be dissected leaves no entry (and does not displace an earlier one)
-					if e := rc.Pkt.expected(); e != nil {
-						fs.Records["RawHeader"] = e
-					}
+					// every raw-header record is reported with its own four fields (F33); the layers only when the sampled
+					// octets can be broken down (expected() is nil otherwise: the embedded members are left out)
+					fs.Records["RawHeader"] = &xRawHeader{Protocol: rc.Pkt.HdrProto, FrameLength: rc.FrameLen, Stripped: rc.Stripped,
+						HeaderLength: uint32(len(rc.Pkt.encode())), Packet: rc.Pkt.expected()}
 				case 1001:
 					fs.Records["ExtSwitch"] = &sflow.ExtSwitchData{SrcVlan: rc.SW[0], SrcPriority: rc.SW[1], DstVlan: rc.SW[2], DstPriority: rc.SW[3]}
 				case 1002:
@@ -902,6 +916,85 @@ func mutate(r *rand.Rand, d []byte) []byte {
 	return d
 }
 
+// offsets of the HeaderLength word of every raw-header record of the encoded datagram (flow samples only)
+func hdrLenOffsets(d *aDatagram, wire []byte) []int {
+	var offs []int
+	o := 8 + len(d.Agent) + 16
+	for i := range d.Samples {
+		s := &d.Samples[i]
+		if s.Type == 1 {
+			ro := o + 8 + 32
+			for j := range s.Recs {
+				if s.Recs[j].Fmt == 1 {
+					if at := ro + 8 + 12; int(binary.BigEndian.Uint32(wire[at:])) != len(s.Recs[j].Pkt.encode()) {
+						panic("hdrLenOffsets: not the HeaderLength word")
+					}
+					offs = append(offs, ro+8+12)
+				}
+				ro += 8 + len(s.Recs[j].encodeBody(false))
+			}
+		}
+		o += len(s.encode())
+	}
+	return offs
+}
+
+// the raw-header HeaderLength word hit on purpose: the cap (1500 is the last accepted value), the uint32 padding
+// arithmetic `(4 - HeaderLength) % 4` at its wrap-around, and every way the octets behind the word can run out
+// (none left for a length of 1 / 4: Reader.Read reports EOF; one octet short; the XDR padding missing).  at = offset
+// of the word in wire; nothing after the cut is described by the abstract datagram any more.
+func hitHdrLen(r *rand.Rand, wire []byte, at int) []byte {
+	if at+4 > len(wire) {
+		return wire
+	}
+	w := append([]byte{}, wire...)
+	old := int(binary.BigEndian.Uint32(w[at:]))
+	vals := []uint32{1500, 1501, 1502, 1503, 1504, 0x7fffffff, 0x80000000, 0xfffffffc, 0xfffffffd, 0xfffffffe, 0xffffffff,
+		0, 1, 2, 3, 4, 5, 1496, 1497, 1498, 1499}
+	set := func(v uint32) { copy(w[at:], sfBe32(v)) }
+	// the octets behind the word replaced by exactly n fresh ones (the datagram ends there)
+	tail := func(n int) { w = append(w[:at+4], rbytes(r, n)...) }
+	switch r.Intn(10) {
+	case 0: // any boundary value, the octets that follow left alone
+		set(vals[r.Intn(len(vals))])
+	case 1: // any boundary value, nothing / a few / plenty of octets behind it
+		set(vals[r.Intn(len(vals))])
+		tail([]int{0, 1, 3, 4, 1499, 1500, 1501, 1504, 1600}[r.Intn(9)])
+	case 2: // header length 1 or 4 with no octets left
+		set([]uint32{1, 4}[r.Intn(2)])
+		tail(0)
+	case 3: // 1500 announced, 1499 there
+		set(1500)
+		tail(1499)
+	case 4: // 1497 octets, the three padding octets (or some of them) missing
+		set(1497)
+		tail(1497 + r.Intn(3))
+	case 5: // the cap from both sides with the octets there: 1500 is decoded, 1501.. is errMaxOutEthernetLength
+		v := uint32(1497 + r.Intn(8))
+		set(v)
+		tail(int(v) + r.Intn(5))
+	case 6: // the record's own header cut off after the word, one octet short of its announced length, or its padding short
+		pad := (4 - old%4) % 4
+		cut := []int{at + 4, at + 4 + old - 1, at + 4 + old, at + 4 + old + pad - 1}[r.Intn(4)]
+		if cut >= at+4 && cut <= len(w) {
+			w = w[:cut]
+		}
+	case 7: // one more / one less than what is there (the following record is read from shifted octets)
+		if old > 0 && r.Intn(2) == 0 {
+			set(uint32(old - 1))
+		} else {
+			set(uint32(old + 1))
+		}
+	case 8: // the other three words of the record at their boundary values (they are reported as they are)
+		if at >= 12 {
+			copy(w[at-12+4*r.Intn(3):], sfBe32([]uint32{0, 1, 0x7fffffff, 0x80000000, 0xffffffff}[r.Intn(5)]))
+		}
+	default: // wrap-around values with a datagram that goes on
+		set([]uint32{0x7fffffff, 0x80000000, 0xfffffffc, 0xfffffffd, 0xfffffffe, 0xffffffff}[r.Intn(6)])
+	}
+	return w
+}
+
 func filterStr(f []uint32) string {
 	if len(f) == 0 {
 		return "-"
@@ -920,7 +1013,9 @@ func genSflow(r *rand.Rand, n int, w *bufio.Writer, forFilter bool) {
 		wire := d.encode()
 		if r.Intn(100) < 12 {
 			// malformed stream: the abstract datagram no longer describes the octets
-			if r.Intn(6) == 0 {
+			if offs := hdrLenOffsets(d, wire); len(offs) > 0 && r.Intn(4) == 0 {
+				wire = hitHdrLen(r, wire, offs[r.Intn(len(offs))])
+			} else if r.Intn(6) == 0 {
 				wire = truncHeaderCase(r)
 			} else {
 				wire = mutate(r, wire)
